@@ -25,3 +25,4 @@ def run(chk, tier):
         A.terminal_clauses_use_own_info(chk, F, 'R01.5', cfg)
         from props import ctor
         ctor.builder_constructors(chk, F, 'R01.0', cfg)
+        E.index_is_position(chk, F, 'R01.1.index', cfg)
